@@ -274,6 +274,12 @@ func c05Faults(text string) []c05Fault {
 			// duplicate a label: add a new block with the same name at the end of the function is complex; instead repeat the label with a terminator
 			dup = "duplicate/label"
 		}
+		// a definition spelled with the empty quoted name (`@"" = ...`, `%"" = ...`,
+		// `"":`) is unnamed: repeating it defines another unnamed entity, not the
+		// same one twice
+		if strings.HasPrefix(trim, `@"" `) || strings.HasPrefix(trim, `%"" `) || trim == `"":` {
+			dup = ""
+		}
 		// removed definitions: the uses stay, the definition goes
 		if dup != "" && !inFunc && dup != "duplicate/function-declaration" || (!inFunc && strings.HasPrefix(l, "declare")) {
 			out = append(out, c05Fault{kind: "undefined/removed-definition-of-" + strings.TrimPrefix(dup, "duplicate/"), text: text[:off] + text[off+len(l):], site: fmt.Sprintf("line %d", i+1), warmup: text, naming: true})
@@ -459,6 +465,21 @@ func c05Handwritten(r *fw.Rec) {
 		"duplicate/comdat":                                    "$c = comdat any\n$c = comdat largest\n@g = global i32 0, comdat($c)\n",
 		"duplicate/metadata-id":                               "!0 = !{}\n!0 = !{!\"x\"}\n!nm = !{!0}\n",
 		"duplicate/ifunc-and-function":                        "@r = global i32 0\ndefine void ()* @res() {\n  ret void ()* null\n}\n@f = ifunc void (), void ()* ()* @res\ndefine void @f() {\n  ret void\n}\n",
+		// the empty quoted name: a definition spelled `%""` is unnamed, so nothing is
+		// ever called "" and a reference to it has no definition (LLVM: use of
+		// undefined value '%')
+		"undefined/empty-name-local-is-not-id-0":          "define i32 @f(i32) {\n  ret i32 %\"\"\n}\n",
+		"undefined/empty-name-local-is-not-entry-block":   "define void @f() {\n  %x = add i32 1, 2\n  br label %\"\"\n}\n",
+		"undefined/empty-name-global-is-not-id-0":         "@0 = global i32 5\n@p = global i32* @\"\"\n",
+		"undefined/empty-name-callee-is-not-id-0":         "define void @0() {\n  ret void\n}\ndefine void @f() {\n  call void @\"\"()\n  ret void\n}\n",
+		"undefined/empty-name-type-is-not-id-0":           "%0 = type { i32 }\n@g = global %\"\" zeroinitializer\n",
+		"undefined/empty-name-phi-pred-is-not-id-0":       "define i32 @f() {\n  br label %next\nnext:\n  %p = phi i32 [ 0, %\"\" ]\n  ret i32 %p\n}\n",
+		"undefined/empty-name-blockaddress-function":      "define void @0() {\n  br label %b\nb:\n  ret void\n}\n@a = global i8* blockaddress(@\"\", %b)\n",
+		"undefined/empty-name-blockaddress-block":         "define void @f() {\n  br label %b\nb:\n  ret void\n}\n@a = global i8* blockaddress(@f, %\"\")\n",
+		"undefined/empty-name-alias-target":               "@0 = global i32 5\n@a = alias i32, i32* @\"\"\n",
+		"duplicate/explicit-zero-param-twice-declaration": "declare void @f(i32 %0, i32 %0)\n",
+		"duplicate/explicit-zero-param-twice-definition":  "define i32 @f(i32 %0, i32 %0) {\n  ret i32 %0\n}\n",
+		"duplicate/explicit-zero-param-after-unnamed":     "declare void @f(i32, i32 %0)\n",
 	}
 	for _, kind := range fw.SortedKeys(cases) {
 		c05Judge(r, "handwritten", c05Fault{kind: kind, text: cases[kind], site: "handwritten"})
